@@ -341,6 +341,15 @@ def judge(case, impl, model):
     dev = S.deviation_findings(case, impl, "ill-formed-instance", None)        # the library's bare formatted-string field vs the documented language
     msg = S.correspondence(case, impl, model) or S.chain_correspondence(case, impl, model)
     fails = list(dev)
+    ch = impl.get("chain") or {}
+    if "err" in ch and ch.get("applied") and ch["applied"][-1]["op"] in ("copy", "deepcopy", "pickle") and "ok" in (model.get("chainRes") or {}):
+        # a plain copy of a VALID instance raised: the stored value is not accepted by its own field any more
+        head = str(ch.get("msg", "")).split(":")[0]
+        fld = max((fd for nm, fd in case["cls"]["fields"] if head == nm or head.startswith(nm + "_")), key=lambda fd: len(json.dumps(fd)), default=None)
+        js = json.dumps(fld if fld is not None else case["cls"])
+        site = next((k for k in ("oneOf", "allOf") if f'"{k}"' in js), "other")
+        fails.append((f"copy-raises:{ch['applied'][-1]['op']}:{site}", f"{ch['applied'][-1]['op']} of the valid instance {json.dumps(impl.get('ok'))[:200]} raised {ch['err']}: {ch.get('msg')}"))
+        msg = None
     if "unbuildable" in impl or "abstraction_mismatch" in impl:
         return msg, fails
     kind = S.top_kind(case)
